@@ -40,6 +40,9 @@ Rules applied to copied text (all line preserving, all counted in the report):
       say "the result is a function of the operands" (uninterpreted fle/flt/fge/fgt/fadd/fin).
   R13 `for (i, x) in E.iter().enumerate() {` -> `let mut r13_i = 0; let r13_n = E.len(); while r13_i < r13_n
       { let i = r13_i; let x = &E[r13_i]; r13_i = r13_i + 1;` (definition of slice::Iter + Enumerate).
+  R16 `for (a, b) in X.iter_mut().zip(Y.iter()) {` -> `let mut r16_i = 0; let r16_n = min(X.len(), Y.len());
+      while r16_i < r16_n { let a = &mut X[r16_i]; let b = &Y[r16_i]; r16_i = r16_i + 1;` (definition of Zip
+      over two slice iterators: stops at the shorter one).
   I4  contract text is inserted between signature and body / after loop headers; `ret=` names
       the return value `-> (r: T)`.
 Everything else is byte-identical to /repo.  The report lists, per function, source file:line
@@ -498,6 +501,7 @@ class Extractor:
                 body_code = src.code[bo:lc]
                 hdr = src.src[ks:bo]
                 mfor = re.match(r"for\s+(\w+)\s+in\s+(.+?)\.\.(.+?)\s*$", hdr, re.S)
+                mzip = re.match(r"for\s*\(\s*(\w+)\s*,\s*(\w+)\s*\)\s+in\s+(.+?)\.iter_mut\(\)\.zip\((.+?)\.iter\(\)\)\s*$", hdr, re.S)
                 menum = re.match(r"for\s*\(\s*(\w+)\s*,\s*(\w+)\s*\)\s+in\s+(.+?)\.iter\(\)\.enumerate\(\)\s*$", hdr, re.S)
                 if mfor and re.search(r"\bcontinue\b", body_code):
                     # R7: desugar `for x in a..b { .. continue .. }`
@@ -526,6 +530,27 @@ class Extractor:
                         self.out.emit(il)
                     self.out.emit_src(src, k, "%s{ let %s = r7_i; r7_i = r7_i + 1;" % (ind, x))
                     begin_n = n
+                elif mzip:
+                    # R16: desugar `for (a, b) in X.iter_mut().zip(Y.iter()) {`
+                    if src.line_of(ks) != k:
+                        raise LostAnchor("R16: multi-line for header in fn %s" % name)
+                    ind = l[:len(l) - len(l.lstrip())]
+                    xa, xb, ex, ey = mzip.group(1), mzip.group(2), mzip.group(3).strip(), mzip.group(4).strip()
+                    self.hit("R16.for_zip")
+                    rec["edits"].append("R16: `%s` desugared to while" % hdr.strip())
+                    self.out.emit_src(src, k, "%slet mut r16_i: usize = 0; let r16_n: usize = if %s.len() <= %s.len() { %s.len() } else { %s.len() };"
+                                      % (ind, ex, ey, ex, ey))
+                    self.out.emit_src(src, k, "%swhile r16_i < r16_n" % ind)
+                    body = [il for il in inv if il.strip() and not il.strip().startswith("invariant")
+                            and not il.strip().startswith("decreases")]
+                    self.out.emit("%s    invariant" % ind)
+                    self.out.emit("%s        r16_i <= r16_n," % ind)
+                    for il in body:
+                        self.out.emit(il)
+                        self.hit("I4.contract_lines")
+                    self.out.emit("%s    decreases r16_n - r16_i" % ind)
+                    self.out.emit_src(src, k, "%s{ let %s = &mut %s[r16_i]; let %s = &%s[r16_i]; r16_i = r16_i + 1;" % (ind, xa, ex, xb, ey))
+                    begin_n = n
                 elif menum:
                     # R13: desugar `for (i, x) in E.iter().enumerate() {`
                     if src.line_of(ks) != k:
@@ -542,7 +567,7 @@ class Extractor:
                     self.out.emit("%s    invariant" % ind)
                     self.out.emit("%s        r13_i <= r13_n," % ind)
                     for il in body:
-                        self.out.emit(il if il.rstrip().endswith(",") else il.rstrip() + ",")
+                        self.out.emit(il)
                         self.hit("I4.contract_lines")
                     self.out.emit("%s    decreases r13_n - r13_i" % ind)
                     self.out.emit_src(src, k, "%s{ let %s = r13_i; let %s = &%s[r13_i]; r13_i = r13_i + 1;" % (ind, xi, xv, ex))
